@@ -23,44 +23,44 @@ impl CanonicalRequest {
     }
 
 //@ fn canonical.rs impl CanonicalRequest :: request_method
-//@ props C08 C01
+//@ props C08 C01 C17
 //@ ret r
 //@ spec
     ensures r.spec_bytes() == self.method_bytes(),
 //@ end
 //@ fn canonical.rs impl CanonicalRequest :: canonical_path
-//@ props C08 C01
+//@ props C08 C01 C17
 //@ ret r
 //@ spec
     ensures r.spec_bytes() == self.path_bytes(),
 //@ end
 //@ fn canonical.rs impl CanonicalRequest :: query_parameters
-//@ props C08
+//@ props C08 C17
 //@ ret r
 //@ spec
     ensures r@ == self.qp(),
 //@ end
 //@ fn canonical.rs impl CanonicalRequest :: headers
-//@ props C08
+//@ props C08 C17
 //@ ret r
 //@ spec
     ensures r@ == self.hd(),
 //@ end
 //@ fn canonical.rs impl CanonicalRequest :: body_sha256
-//@ props C08 C01
+//@ props C08 C01 C17
 //@ ret r
 //@ spec
     ensures r.spec_bytes() == self.body_hash_bytes(),
 //@ end
 //@ fn canonical.rs impl CanonicalRequest :: canonical_query_string
-//@ props C08 C10 C01
+//@ props C08 C10 C01 C17
 //@ ret r
 //@ spec
     ensures is_canon_query(self.qview(), str_bytes(r@)), //# C10 C01 name=canonical_query
 //@ end
 
 //@ fn canonical.rs impl CanonicalRequest :: canonical_request
-//@ props C08 C01 C11
+//@ props C08 C01 C11 C17
 //@ ret r
 //@ replace 1 `values.iter().enumerate()` => `slice_enumerate(values)`
 //@ replace 1 `signed_headers.join(";")` => `strings_join_str(signed_headers, ";")`
@@ -157,7 +157,7 @@ impl CanonicalRequest {
 //@ end
 
 //@ fn canonical.rs impl CanonicalRequest :: canonical_request_sha256
-//@ props C08 C01
+//@ props C08 C01 C17
 //@ ret r
 //@ spec
     requires self.wf()
